@@ -402,7 +402,7 @@ Check no_panic : forall be fmt64 version asz attrs rstart lstart rtbl ltbl, unit
    Compositions of C11 attr_read_by_reader, C03's Attribute::value() model and the theorems above
    (Proofs/WriterGlueProofs.v). *)
 Require GV.Spec.UnitWrSpec GV.Model.UnitWr GV.Proofs.UnitRoundtrip GV.Proofs.AttrProofs GV.Spec.FormSpec GV.Model.Attr
-        GV.Proofs.WriterGlueProofs.
+        GV.Model.OpWr GV.Model.UnitGlueWr GV.Proofs.WriterGlueProofs.
 
 (* the attribute step: C03's reader (Attr.parse_attribute under the specification the writer stores: sec_offset, or
    data4/data8 in DWARF 2/3) reads the written bytes back, Attribute::value() makes it RangeListsRef(o) /
@@ -519,3 +519,13 @@ Proof.
   split; [eexists; eexists; vm_compute; reflexivity|]. split; [vm_compute; reflexivity|].
   split; [reflexivity|vm_compute; reflexivity].
 Qed.
+
+(* LocationListTable::write of the composed model (real expressions, fix-ups) = table_write of this property's model on the
+   raw view of the table (each expression replaced by the bytes it is written as: WriterGlueProofs.raw_rel): same bytes,
+   same LocationListOffsets.  Hence every theorem above about table_write / unit_write_lists applies to the location
+   lists the composed model writes. *)
+Theorem loc_table_write_composed : forall dbg oe uo hb start tbl bytes offs fx,
+  UnitGlueWr.gloc_table_write dbg oe uo hb start tbl = Ok (bytes, offs, fx) -> start + 20 + OpWr.blen bytes < 2 ^ 64 ->
+  exists rtbl, Forall2 (Forall2 (WriterGlueProofs.raw_rel dbg oe uo)) tbl rtbl /\
+    table_write true (OpWr.e_be oe) (OpWr.e_fmt64 oe) (OpWr.e_version oe) (OpWr.e_asize oe) hb start rtbl = Ok (bytes, offs).
+Proof. exact WriterGlueProofs.gloc_table_write_raw. Qed.
